@@ -37,7 +37,8 @@ RULE = ("Hypothesis-generated cases. vec: system in {cylindrical, spherical(r, a
     "positive/real symbols substituted afterwards, system pair created with Cartesian or curvilinear SymPy parent, "
     "scalar k>0 or k<0; judged: transformation table, rebase == harness map, round trip, dot/magnitude/scale against the "
     "Cartesian component model. field: polynomial/trigonometric expression trees (depth<=3) in the three coordinates, "
-    "from_expression or lambda, rebased in both directions and applied at generated points (typed point or apply()), "
+    "from_expression or lambda, rebased in both directions and applied at generated points (apply(), a typed point built by its constructor, or a "
+    "typed point filled / moved from elsewhere through its coordinate setters by long names or short aliases), "
     "plus rebase there-and-back at a second point. refuse: exhaustive table. dynvec/dynfield: components/trajectories "
     "referencing own base scalars (identity, permuted, expressions). Non-trivial = vec: v has all three Cartesian "
     "coordinates non-zero (off all coordinate planes) and the two systems differ (always); field: the expression "
@@ -308,7 +309,8 @@ def field_case(draw: Any) -> Any:
     # point in the source system for rebase there-and-back; spherical source points need all 3 coordinates
     pt2 = draw(_point(src_kind, 3 if src_kind == "sph" else 1))
     return {"mode": "field", "sys": sysname, "dir": direction, "parent": parent, "expr": expr,
-        "lambda": draw(st.booleans()), "call": draw(st.sampled_from(["apply", "point"])), "pt": pt, "pt2": pt2}
+        "lambda": draw(st.booleans()), "call": draw(st.sampled_from(["apply", "point", "point", "set-long", "set-short", "move-long", "move-short"])),
+        "pt": pt, "pt2": pt2}
 
 
 _PERMS = [[0, 1, 2], [1, 0, 2], [0, 2, 1], [2, 1, 0], [1, 2, 0], [2, 0, 1]]
@@ -627,7 +629,19 @@ def _apply_at(field: Any, kind: str, pt: list[Any], how: str) -> Any:
     if how == "apply":
         return field.apply(coords)
     cls = {"cart": CartesianPoint, "cyl": CylinderPoint, "sph": SpherePoint}[kind]
-    return field(cls(*coords))
+    if how == "point":
+        return field(cls(*coords))
+    # the point object is filled (set-*) or moved from elsewhere (move-*) through its coordinate setters, by their long
+    # names or their short aliases: the same physical point as cls(*coords)
+    names = _SETTERS[kind][0 if how.endswith("long") else 1]
+    p = cls() if how.startswith("set") else cls(*([3] * len(coords)))
+    for name, c in zip(names, coords):
+        setattr(p, name, c)
+    return field(p)
+
+
+_SETTERS = {"cart": (("x", "y", "z"), ("x", "y", "z")), "cyl": (("radius", "azimuthal_angle", "height"), ("r", "theta", "z")),
+    "sph": (("radius", "azimuthal_angle", "polar_angle"), ("r", "theta", "phi"))}
 
 
 def judge_field(case: dict[str, Any]) -> tuple[list[tuple[str, str]], list[str]]:
